@@ -451,6 +451,12 @@ def analyse(ctx, cases, results, hashseeds):
             extra = [(k, r[k]) for k in ("T", "XR", "XA", "XF", "H", "XQ", "BQ") if k in r]
             counters["runs"] += len(runs)
             counters["error_runs"] += sum(1 for _, x in runs if "error" in x)
+            dnf = sum(1 for k, x in list(r.items()) if isinstance(x, dict) and x.get("error", "").startswith("DidNotFinish"))
+            counters["did_not_finish_runs"] = counters.get("did_not_finish_runs", 0) + dnf
+            if r.get("did_not_finish"):
+                counters["did_not_finish_cases"] = counters.get("did_not_finish_cases", 0) + 1
+                counters.setdefault("did_not_finish_list", []).append({"component": comp, "problem": case["problem"],
+                                                                        "params": case.get("params", {}), "seed": case["seed"]})
             a = r["A"]
             if dig(r["D"]) != dig(a):
                 add(comp, "nondeterministic-under-identical-global-state", "", i, pair_detail(case, hs, "A", a, hs, "D", r["D"]))
@@ -648,6 +654,9 @@ def run(ctx):
     ctx.coverage.update({
         "evaluations": len(cases) * len(hashseeds) + sum(1 for r in results.get(ORDER_SET, []) if r),
         "second_problem_runs": counters.get("second_problem_runs", 0),
+        "did_not_finish_runs": counters.get("did_not_finish_runs", 0),      # watchdog (C13_RUN_LIMIT_S per run): counted, not a violation
+        "did_not_finish_cases": counters.get("did_not_finish_cases", 0),    # unless the runs compared with it did finish
+        "did_not_finish_list": counters.get("did_not_finish_list", [])[:10],
         "input_features": dict(input_features(cases), stale_result_requeries=counters.get("stale_result_requeries", 0),
                                problem_fingerprint_checks=counters.get("problem_fingerprint_checks", 0),
                                second_problem_runs=counters.get("second_problem_runs", 0)),
